@@ -27,6 +27,7 @@ import CtyModel.Lemmas.d17MsgpackNP
 import CtyModel.Lemmas.d17MsgpackConf
 import CtyModel.Lemmas.d17MsgpackImplied
 import CtyModel.Lemmas.d17MsgpackWF
+import CtyModel.Lemmas.d17MsgpackLen
 import CtyModel.Lemmas.d17MsgpackAlloc
 import CtyModel.Lemmas.d17AllocSites
 import CtyModel.Lemmas.d17JsonDepth
@@ -258,6 +259,28 @@ theorem msgpack_oversize_extension_refused [EqOracle] (E : Ext) (code : Int) (le
 /-- … and the limit is sharp: a body of exactly 1024 bytes is still read -/
 example : (match @D17.unmarshal textOracle mext0 (.ext 12 1024 (.map 1) [.int 1, .bool false]) .string with
     | .ok v => !v.isKnown | _ => false) = true := by decide +kernel
+
+/-- /repo bb6ac26 IS COMPLETE: an unknown-value extension item decoded against a list type comes
+back null, unknown (refined or not) or as the EMPTY list — never as a list whose length was read
+from the input (`RefinementBuilder.NewValue` turns a not-null list record whose length bounds meet
+at `n` into `n` unknown elements: `n` up to 2^63 from a dozen bytes).  For every refinement map,
+every order of its entries, repeated and unknown keys included: the loop variables
+`notNull, minLen, maxLen` of `unmarshalUnknownValue` mirror the builder's record
+(`Lemmas/d17MsgpackLen.lean`, `LenInv`), so the test after the loop refuses exactly those records. -/
+theorem msgpack_unknown_list_not_sized_by_input [EqOracle] (E : Ext) (code : Int) (len : Nat) (hdr : ExtHdr)
+    (stream : List Item) (e : Ty) (v : Value) (h : D17.unmarshal E (.ext code len hdr stream) (.list e) = .ok v) :
+    v.v = .null ∨ (∃ r, v.v = .unk r) ∨ v.v = .seq [] :=
+  ext_list_shape E h
+
+/-- the three outcomes occur: `{1:true}` null, `{1:false,5:2,6:4}` a refined unknown list,
+`{1:false,6:0}` the empty list -/
+example :
+    (match @D17.unmarshal textOracle mext0 (.ext 12 3 (.map 1) [.int 1, .bool true]) (.list .string) with
+      | .ok ⟨_, .null⟩ => true | _ => false) = true ∧
+    (match @D17.unmarshal textOracle mext0 (.ext 12 7 (.map 3) [.int 1, .bool false, .int 5, .int 2, .int 6, .int 4]) (.list .string) with
+      | .ok v => !v.isKnown | _ => false) = true ∧
+    (match @D17.unmarshal textOracle mext0 (.ext 12 5 (.map 2) [.int 1, .bool false, .int 6, .int 0]) (.list .string) with
+      | .ok ⟨_, .seq []⟩ => true | _ => false) = true := by decide +kernel
 
 /-! ## Clause 3 — allocation (cty/msgpack after /repo 9555bea, 12d5e4f) -/
 
